@@ -574,6 +574,197 @@ def oracle_pair(R: Run, ns, case, dtype, data, attr_nd, dst_nd, sched, seed, lea
     return whole, chunked
 
 
+# ------------------------------------------------------------------ every keyword reaches the chunked path
+RESAMPLINGS = ["nearest", "bilinear", "cubic", "cubic_spline", "lanczos", "average", "mode", "gauss", "max", "min", "med",
+               "q1", "q3", "sum", "rms"]
+
+
+def kw_s(kw):
+    """canonical text of the value-affecting keywords of one warp call"""
+    r = kw.get("resampling")
+    r = getattr(r, "name", r)
+    rest = sorted((k, v) for k, v in kw.items() if k not in ("resampling", "src_nodata", "dst_nodata", "axis"))
+    return (f"resampling={str(r).lower()};src_nodata={val_s(kw.get('src_nodata'))};dst_nodata={val_s(kw.get('dst_nodata'))};"
+            + (f"axis={kw['axis']};" if "axis" in kw else "") + ",".join(f"{k}={v}" for k, v in rest))
+
+
+def task_kwargs(lazy):
+    """the keyword dicts bound into the chunk tasks of the reprojection layer of a real dask graph"""
+    out = []
+    for _name, layer in lazy.dask.layers.items():
+        if True:
+            for v in dict(layer).values():
+                f = v[0] if isinstance(v, tuple) else getattr(v, "func", None)
+                if hasattr(f, "keywords") and getattr(f, "func", None) is not None and f.func.__name__ == "_do_chunked_reproject":
+                    out.append(dict(f.keywords))
+    return out
+
+
+def kw_corr(R: Run, ns, rng):
+    """the keywords `_dask_rio_reproject` binds into its chunk tasks versus the model (Model/C13Kw), incl. error behaviour"""
+    import rasterio.enums
+
+    R.oracle(sorted(rasterio.enums.Resampling.__members__) == sorted(RESAMPLINGS), "resampling-enum-changed",
+             {"members": sorted(rasterio.enums.Resampling.__members__)}, "rasterio.warp.Resampling has other members than the model",
+             trivial=True)
+    sg = ns.GeoBox((4, 6), ns.Affine(1, 0, 0, 0, -1, 4), CRS)
+    dg = ns.GeoBox((5, 5), ns.Affine(1, 0, 1.5, 0, -1, 5.25), CRS)
+    names = RESAMPLINGS + ["Bilinear", "CUBIC", "foo", "nearest ", ""]
+    for r in names:
+        for _ in range(2):
+            sn, dn = rng.choice([None, 7, 0]), rng.choice([None, -1, 7])
+            ydim = rng.choice([0, 1])
+            extras = rng.choice([{}, {"num_threads": 2}, {"warp_mem_limit": 32, "num_threads": 1}, {"XSCALE": 1, "YSCALE": 1},
+                                 {"name": "warped", "num_threads": 2}])
+            arr = ns.da.from_array(np.ones(((2,) if ydim else ()) + (4, 6), dtype="float32"), chunks=((1,) if ydim else ()) + (2, 3))
+
+            def f():
+                lz = ns.D._dask_rio_reproject(arr, sg, dg, r, sn, dn, ydim=ydim, chunks=(2, 2), **dict(extras))
+                kws = {kw_s(k) for k in task_kwargs(lz)}
+                return kws.pop() if len(kws) == 1 else f"INCONSISTENT:{sorted(kws)}"
+
+            ex = ",".join(f"{k}={v}" for k, v in sorted(extras.items())) or "-"
+            R.corr(f"c13 kw {r if r.strip() == r and r else 'BAD'} {val_s(sn)} {val_s(dn)} {ydim} {ex}" if r.strip() == r and r else
+                   f"c13 kw BAD{len(r)} {val_s(sn)} {val_s(dn)} {ydim} {ex}", f,
+                   sig="kw|" + ("ok" if r.lower() in RESAMPLINGS else "bad-name"))
+
+
+class WarpSpy:
+    """records the value-affecting keywords of every rasterio.warp.reproject call made by odc.geo.warp"""
+
+    def __init__(self, ns):
+        self.ns, self.calls = ns, []
+
+    def __enter__(self):
+        import rasterio.warp
+
+        self.mod = rasterio.warp
+        self.orig = rasterio.warp.reproject
+
+        def spy(source, destination=None, **kw):
+            rec = {k: v for k, v in kw.items() if k not in ("src_transform", "dst_transform", "gcps")}
+            rec["dtype"] = f"{np.asarray(source).dtype}->{np.asarray(destination).dtype}"
+            self.calls.append(rec)
+            return self.orig(source, destination, **kw)
+
+        rasterio.warp.reproject = spy
+        return self
+
+    def __exit__(self, *a):
+        self.mod.reproject = self.orig
+
+    def canon(self):
+        def c(v):
+            v = getattr(v, "name", v)
+            return "nan" if isinstance(v, float) and math.isnan(v) else str(v)
+
+        return sorted({";".join(f"{k}={c(v)}" for k, v in sorted(rec.items())) for rec in self.calls})
+
+
+def forwarding_one(R: Run, ns, cj):
+    """every keyword that reaches GDAL in the in-memory path reaches it identically in every chunk of the dask path"""
+    case = case_from_json(cj["case"])
+    dtype = cj["dtype"]
+    data = np.asarray(cj["data"]).astype(dtype)
+    attr, dn = nd_from_json(cj["attr"]), nd_from_json(cj["dn"])
+    sig = f"forward|{cj['resampling']}|{DTYPES[dtype][0]}|extras={len(cj['extras'])}"
+    try:
+        sg, dg, _ = geoboxes(ns, case)
+        with WarpSpy(ns) as w:
+            ns.xr_reproject(ns.wrap_xr(data, sg, nodata=attr), dg, resampling=cj["resampling"], dst_nodata=dn, **cj["extras"])
+        with WarpSpy(ns) as c:
+            lz = ns.xr_reproject(ns.wrap_xr(ns.da.from_array(data, chunks=(case["sy"], case["sx"])), sg, nodata=attr), dg,
+                                 resampling=cj["resampling"], dst_nodata=dn, chunks=(case["cy"], case["cx"]), **cj["extras"])
+            lz.data.compute(scheduler="synchronous")
+    except Exception as e:  # pylint: disable=broad-except
+        R.oracle(False, "reproject-raises", cj, f"{type(e).__name__}: {e}", sig=sig)
+        return False
+    wk, ck = w.canon(), c.canon()
+    ok = len(wk) == 1 and (not ck or ck == wk)
+    R.oracle(ok, "chunk-keywords-differ-from-whole", cj,
+             ("keywords reaching rasterio.warp.reproject differ: in-memory only "
+              f"{sorted(set(';'.join(wk).split(';')) - set(';'.join(ck).split(';')))[:6]}, chunk tasks only "
+              f"{sorted(set(';'.join(ck).split(';')) - set(';'.join(wk).split(';')))[:6]}") if not ok else "", sig=sig, trivial=not ck)
+    return ok
+
+
+def gen_forwarding(rng, dts):
+    case = gen_case(rng, rotated=rng.random() < 0.3, small=True)
+    dtype = rng.choice([d for d in dts if d != "bool"])
+    attr = rng.choice([None, None, 0, 3])
+    dn = rng.choice([None, None, attr, 5 if not dtype.startswith("float") else -7777])
+    extras = rng.choice([{}, {}, {"num_threads": 2}, {"warp_mem_limit": 32}, {"XSCALE": 1, "YSCALE": 1}, {"init_dest_nodata": True}])
+    return {"kind": "forward", "case": case_json(case), "dtype": dtype, "data": data_json(gen_data(rng, (case["sh"], case["sw"]), dtype, (attr,)), dtype),
+            "attr": nd_json(attr), "dn": nd_json(dn), "resampling": rng.choice([r for r in RESAMPLINGS if r != "gauss"]), "extras": extras}
+
+
+# ------------------------------------------------------------------ linear fields: bilinear / cubic are exact on them
+def linear_one(R: Run, ns, cj):
+    """source = affine-linear field, float64, no nodata: bilinear and cubic reproduce it exactly (up to rounding) in BOTH
+    paths wherever the kernel sees real data only; nearest would give a step function"""
+    case = case_from_json(cj["case"])
+    ga, gb, gc = cj["coef"]
+    r_in = 2 if cj["resampling"] == "bilinear" else 3
+    sig = f"linear|{cj['resampling']}|{case.get('fam', 'st')}"
+    jj, ii = np.meshgrid(np.arange(case["sw"]) + 0.5, np.arange(case["sh"]) + 0.5)
+    data = (ga * jj + gb * ii + gc).astype("float64")
+    try:
+        sg, dg, _ = geoboxes(ns, case)
+        whole = ns.xr_reproject(ns.wrap_xr(data, sg), dg, resampling=cj["resampling"]).values
+        chunked = ns.xr_reproject(ns.wrap_xr(ns.da.from_array(data, chunks=(case["sy"], case["sx"])), sg), dg,
+                                  resampling=cj["resampling"], chunks=(case["cy"], case["cx"])).data.compute(scheduler="synchronous")
+        deps = real_deps(ns, sg, dg, case)
+    except Exception as e:  # pylint: disable=broad-except
+        R.oracle(False, "reproject-raises", cj, f"{type(e).__name__}: {e}", sig=sig)
+        return False
+    a, b, c, d, e, f = (float(v) for v in case["A"])
+    X, Y = np.meshgrid(np.arange(case["dw"]) + 0.5, np.arange(case["dh"]) + 0.5)
+    px, py = a * X + b * Y + c, d * X + e * Y + f
+    exact = ga * px + gb * py + gc
+    in_w = (px >= r_in) & (px <= case["sw"] - r_in) & (py >= r_in) & (py <= case["sh"] - r_in)
+    # chunked: every source tile under the kernel footprint must be wired to the pixel's destination tile
+    oy, ox = np.cumsum((0,) + case["sy"]), np.cumsum((0,) + case["sx"])
+    in_c = np.zeros_like(in_w)
+    for y, x in np.argwhere(in_w):
+        have = set(map(tuple, deps.get((int(y) // case["cy"], int(x) // case["cx"]), [])))
+        ys = {int(np.searchsorted(oy[1:], v, "right")) for v in (math.floor(py[y, x] - r_in), math.floor(py[y, x] + r_in))}
+        xs = {int(np.searchsorted(ox[1:], v, "right")) for v in (math.floor(px[y, x] - r_in), math.floor(px[y, x] + r_in))}
+        need = {(ty, tx) for ty in range(min(ys), max(ys) + 1) for tx in range(min(xs), max(xs) + 1)}
+        in_c[y, x] = need <= have
+    tol = 1e-6 * (abs(ga) + abs(gb) + 1)
+    okw = bool(np.all(np.abs(whole[in_w] - exact[in_w]) <= tol))
+    R.oracle(okw, "whole-resampling-not-exact-on-linear-field", cj,
+             f"in-memory {cj['resampling']} of a linear field is off by {float(np.nanmax(np.abs(whole[in_w] - exact[in_w]))) if in_w.any() else 0}",
+             sig=sig + "|whole", trivial=not in_w.any())
+    errc = np.abs(chunked[in_c] - exact[in_c])
+    okc = bool(np.all(errc <= tol))
+    what = ""
+    if not okc:
+        p = tuple(int(i) for i in np.argwhere(in_c)[int(np.nanargmax(np.where(np.isnan(errc), np.inf, errc)))])
+        what = (f"{cj['resampling']} of the linear field {ga}*x+{gb}*y+{gc}: dask-backed pixel {p} holds {chunked[p]}, the field at its "
+                f"mapped centre is {exact[p]} (in-memory: {whole[p]}); all source tiles under the kernel are wired to its chunk")
+    R.oracle(okc, "chunked-resampling-not-exact-on-linear-field", cj, what, sig=sig + "|chunked", trivial=not in_c.any())
+    return okw and okc
+
+
+def gen_linear(rng):
+    while True:
+        case = gen_case(rng, rotated=rng.random() < 0.25, minsize=6)
+        a, b, c, d, e, f = (float(v) for v in case["A"])
+        if max(abs(a), abs(b), abs(d), abs(e)) > 2**-10:  # not a degenerate shear magnitude only
+            break
+    return {"kind": "linear", "case": case_json(case), "resampling": rng.choice(["bilinear", "bilinear", "cubic"]),
+            "coef": [rng.choice([-1, 1]) * rng.uniform(0.5, 2.0), rng.choice([-1, 1]) * rng.uniform(0.5, 2.0), rng.uniform(-5, 5)]}
+
+
+def resampling_stream(R: Run, ns, rng, n, dts):
+    kw_corr(R, ns, rng)
+    for _ in range(n):
+        forwarding_one(R, ns, gen_forwarding(rng, dts))
+    for _ in range(n):
+        linear_one(R, ns, gen_linear(rng))
+
+
 # ------------------------------------------------------------------ the identity corner: dst grid == src grid
 def gen_identity(rng, dts):
     sh, sw = rng.randint(1, 7), rng.randint(1, 7)
@@ -1716,6 +1907,8 @@ def run(R: Run):
     mark('zoom_stream')
     identity_corner(R, ns, rng, R.pick(100, 1200), dts)
     mark('identity_corner')
+    resampling_stream(R, ns, rng, R.pick(60, 600), dts)
+    mark('resampling')
     crs_churn(R, ns, rng, R.pick(130, 900))
     mark('crs_churn')
 
@@ -1758,6 +1951,11 @@ def replay(R: Run, rec) -> int:
     if not cj:
         print(rec.get("broken"))
         return 1
+    if cj.get("kind") in ("forward", "linear"):
+        (forwarding_one if cj["kind"] == "forward" else linear_one)(R, ns, cj)
+        for f in R.oracle_failures:
+            print("FAIL:", f["key"], f["what"])
+        return 1 if R.oracle_failures else 0
     if cj.get("kind") == "scale-snap":
         scale_snap_probe(R, ns)
         for f in R.oracle_failures:
